@@ -158,9 +158,25 @@ type c14Run struct {
 	real  []*c14Real
 	model c14Model
 	log   []string
+	stuck bool
 }
 
-func (r *c14Run) count() int { return r.ts.S.VerifConnections() }
+// count asks the server for its reported number of open connections.  The question takes the counter's lock: if the
+// accounting is deadlocked it is never answered (-1000 after 60 s; the run is then marked as stuck).
+func (r *c14Run) count() int {
+	if r.stuck {
+		return -1000
+	}
+	ans := make(chan int, 1)
+	go func() { ans <- r.ts.S.VerifConnections() }()
+	select {
+	case n := <-ans:
+		return n
+	case <-time.After(60 * time.Second):
+		r.stuck = true
+		return -1000
+	}
+}
 
 // settle waits (positive polling) until the reported count is one the model
 // allows; it returns the last observed count and whether it is allowed.
@@ -242,7 +258,17 @@ func (r *c14Run) apply(e c14Event) string {
 		rc.ended = make(chan struct{})
 		go func(cl *ssh.Client, ch chan struct{}) { cl.Wait(); close(ch) }(rc.client, rc.ended)
 		// a global request is answered by DiscardRequests, which the server starts after it counted the connection
-		if _, _, err := rc.client.SendRequest("keepalive@verif", true, nil); err != nil {
+		kerr := make(chan error, 1)
+		go func(cl *ssh.Client) { _, _, err := cl.SendRequest("keepalive@verif", true, nil); kerr <- err }(rc.client)
+		select {
+		case err = <-kerr:
+		case <-time.After(60 * time.Second):
+			if r.count(); r.stuck {
+				return "the server's connection accounting did not answer within 60 s: its counter lock is never released (deadlock); slots can neither be taken nor given back any more"
+			}
+			return "stuck: a global request on a freshly authenticated connection was not answered within 60 s"
+		}
+		if err != nil {
 			// the server may legitimately close a connection that exceeds the limit right after the hand-shake
 			mc.Phase = "closed"
 			rc.client.Close()
@@ -340,6 +366,9 @@ func (r *c14Run) apply(e c14Event) string {
 		mc.Phase = "closed"
 	}
 	if got, ok := r.settle(10 * time.Second); !ok {
+		if r.stuck {
+			return "the server's connection accounting did not answer within 60 s: its counter lock is never released (deadlock); slots can neither be taken nor given back any more"
+		}
 		lo, hi := r.model.open(), r.model.open()+r.model.pending()+r.model.ending()
 		w := fmt.Sprint(lo)
 		if hi != lo {
@@ -358,6 +387,10 @@ func (r *c14Run) cleanup() {
 		if rc.sock != nil {
 			rc.sock.Close()
 		}
+	}
+	if r.stuck {
+		go r.ts.Stop() // may never return
+		return
 	}
 	r.ts.Stop()
 }
@@ -418,6 +451,8 @@ func c14Sig(path []c14Event, v string) string {
 		return "reported-count-wrong-after-" + last.Kind
 	case strings.Contains(v, "did not end"):
 		return "session-does-not-end"
+	case strings.Contains(v, "accounting did not answer"):
+		return "connection-accounting-deadlocked"
 	}
 	return "other"
 }
